@@ -41,6 +41,25 @@ pub fn run_histories(aspects_oneshot: i64, aspects_inc: i64, fixtures_too: bool)
 		}
 	});
 	{
+		// the cross product of all optional dimensions
+		let uni = universe(cx.quick());
+		cx.note("universe_replays", json!(uni.len()));
+		par_each(uni.into_iter(), |abs, local| {
+			let bytes = Arc::new(record(&abs).doc.assemble());
+			if aspects_oneshot != 0 {
+				let mut p = P { class: "universe", ..Default::default() };
+				p.n[0] = aspects_oneshot;
+				eval_case("model", o_model, &bytes, &p, || abs.describe(), local);
+			}
+			if aspects_inc != 0 {
+				let mut p = P { class: "universe", ..Default::default() };
+				p.n[0] = aspects_inc;
+				p.n[4] = -1;
+				eval_case("incremental", o_incremental, &bytes, &p, || abs.describe(), local);
+			}
+		});
+	}
+	{
 		// long games
 		let longs = long_replays(cx.quick());
 		par_each(longs.into_iter(), |abs, local| {
